@@ -116,6 +116,112 @@ def wait_loop_decisions(ctx, repo, d, hd):
     ctx.floor("R4", "wait-loop valuations", n_ok, 16)
 
 
+def blocking_discovery_model(ctx, repo, rule):
+    """The blocking locator's whole discovery run by interpretation: GeckoLocator is built by its own constructor,
+    start_discovery(True) runs on a model socket whose wait() advances a model clock and delivers scripted HELLO
+    replies through the on_handled callback the locator registered.  What is observed: when the run returns, what
+    it lists, that the socket is closed."""
+    from ..absint import BoundMethod, ClassRef, Interp, Native, Obj, Opaque, PyRaise, Undecided
+    from ..facts import class_const
+    L = "GeckoLocator"
+    sd0 = repo.method(L, "start_discovery")
+    try:
+        it0 = Interp(repo)
+        T_INIT, T_MAX = (it0.eval(ast.parse(f"GeckoConfig.{nm}", mode="eval").body, {"__mod__": sd0.mod, "__class__": sd0.cls})
+                         for nm in ("DISCOVERY_INITIAL_TIMEOUT_IN_SECONDS", "DISCOVERY_TIMEOUT_IN_SECONDS"))
+    except (PyRaise, Undecided) as e:
+        raise AnalysisError(f"discovery timeouts as the locator module sees them: {e}")
+    if not all(isinstance(x, (int, float)) for x in (T_INIT, T_MAX)) or not 0 < T_INIT < T_MAX:
+        raise AnalysisError(f"discovery timeouts not resolved: initial {T_INIT!r}, overall {T_MAX!r}")
+    sd = repo.method(L, "start_discovery")
+    A, B = (b"SPA-A", b"Spa A", ("10.0.0.5", 10022)), (b"SPA-B", b"Spa B", ("10.0.0.6", 10022))
+
+    def run(kwargs, script):
+        """script: [(time, reply)]; returns (t_return, [(identifier, name, sender)], closed, waits)"""
+        st = {"clock": 100.0, "cb": None, "closed": False, "open": False, "waits": 0}
+        pending = sorted(script, key=lambda x: x[0])
+        it = Interp(repo, max_depth=12)
+        it.max_steps = getattr(it, "max_steps", 0) and max(it.max_steps, 400000)
+
+        def deliver():
+            while pending and pending[0][0] <= st["clock"] - 100.0 + 1e-9:
+                _, (ident, name, sender) = pending.pop(0)
+                if st["cb"] is None or st["closed"]:
+                    continue
+                h = Obj(None, {"spa_identifier": ident, "spa_name": name, "client_identifier": b"IOS-X", "was_broadcast_discovery": False}, name="hello-reply")
+                it.apply(st["cb"], [h, sender], {})
+
+        def wait(a, k):
+            st["waits"] += 1
+            if st["waits"] > 5000:
+                raise PyRaise("model: discovery did not return")
+            st["clock"] += float(a[0]) if a and isinstance(a[0], (int, float)) else 0.1
+            deliver()
+
+        def add_handler(a, k):
+            h = a[0]
+            cb = h.attrs.get("_on_handled") if isinstance(h, Obj) else None
+            if cb is not None:
+                st["cb"] = cb
+        sock = Obj(None, {"open": Native(lambda a, k: st.__setitem__("open", True), "open"), "enable_broadcast": Native(lambda a, k: None, "enable_broadcast"),
+                          "add_receive_handler": Native(add_handler, "add_receive_handler"), "queue_send": Native(lambda a, k: None, "queue_send"),
+                          "wait": Native(wait, "wait"), "close": Native(lambda a, k: st.__setitem__("closed", True), "close")}, name="model-socket")
+
+        def ahook(it_, base, attr):
+            if base is sock and attr == "isopen":
+                return st["open"] and not st["closed"]
+            return NotImplemented
+
+        def chook(it_, node, callee, args, kwargs_):
+            nm = getattr(callee, "name", "")
+            if nm == "time.monotonic":
+                return st["clock"]
+            if isinstance(callee, ClassRef) and callee.cls.short == "GeckoUdpSocket":
+                return sock
+            if nm == "threading.Thread":
+                return Obj(None, {"start": Native(lambda a, k: None, "start"), "join": Native(lambda a, k: None, "join"), "is_alive": Native(lambda a, k: False, "is_alive")}, name="thread")
+            return NotImplemented
+        it.attr_hook, it.call_hook = ahook, chook
+        try:
+            loc_ = it.apply(ClassRef(repo.cls(L)), ["uuid-1234"], dict(kwargs))
+            it.steps = 0
+            it.call(sd, loc_, [True])
+            spas = [(it.getattr(d_, "identifier"), it.getattr(d_, "name"), (it.getattr(d_, "ipaddress"), it.getattr(d_, "port"))) for d_ in list(it.getattr(loc_, "spas"))]
+        except PyRaise as e:
+            return ("raises " + e.what, [], st["closed"], st["waits"])
+        except Undecided as e:
+            raise AnalysisError(f"{L}.start_discovery on the model socket: {e}")
+        return (round(st["clock"] - 100.0, 3), spas, st["closed"], st["waits"])
+
+    def within(t, lo, hi):
+        return isinstance(t, float) and lo - 1e-6 <= t <= hi + 1e-6
+    slack = 0.25   # two polling intervals of the wait loop
+    cases = (
+        ("requested-by-text::other-answers-first", {"spa_to_find": "SPA-B"}, [(0.3, A), (T_INIT / 2, B)], (T_INIT / 2, T_INIT / 2 + slack), [A, B],
+         "returns as soon as the requested spa has answered - not when another spa answers first"),
+        ("requested-by-bytes::other-answers-first", {"spa_to_find": b"SPA-B"}, [(0.3, A), (T_INIT / 2, B)], (T_INIT / 2, T_INIT / 2 + slack), [A, B],
+         "returns as soon as the requested spa has answered - not when another spa answers first"),
+        ("requested::only-another-answers", {"spa_to_find": "SPA-B"}, [(0.3, A)], (T_INIT, T_INIT + slack), [A],
+         "the requested spa never answers: returns after the initial wait because some spa answered"),
+        ("no-request::one-answers-early", {}, [(0.3, A)], (T_INIT, T_INIT + slack), [A], "no spa requested: returns after the initial wait once any spa has answered, not at the first reply"),
+        ("no-request::duplicates-and-two-spas", {}, [(0.2, A), (0.4, A), (0.5, B), (0.6, A), (0.7, B)], (T_INIT, T_INIT + slack), [A, B], "each responding spa is listed exactly once, in order of first reply"),
+        ("no-request::late-first-answer", {}, [(T_INIT + 1.0, A)], (T_INIT + 1.0, T_INIT + 1.0 + slack), [A], "nobody answered during the initial wait: returns when the first spa answers"),
+        ("nobody-answers", {}, [], (T_MAX, T_MAX + slack), [], "nobody answers: returns at the discovery timeout"),
+        ("static-address::first-answer", {"static_ip": "10.0.0.5"}, [(0.5, A)], (0.5, 0.5 + slack), [A], "an address was given: returns as soon as that spa has answered"),
+    )
+    n = 0
+    for key, kwargs, script, (lo, hi), want_list, what in cases:
+        t, spas, closed, waits = run(kwargs, script)
+        n += 1
+        ctx.ob(rule, f"{L}::{key}::returns-on-time", within(t, lo, hi),
+               f"{L}.start_discovery({', '.join(f'{k}={v!r}' for k, v in kwargs.items())}) with replies {[(tt, r[0]) for tt, r in script]} returns at t={t} (after {waits} polls); expected within [{lo}, {hi:.2f}]s: {what}",
+               sd.loc, sample={"rule": rule, "case": key, "returned_at": t, "listed": [str(x[0]) for x in spas]})
+        ctx.ob(rule, f"{L}::{key}::lists", spas == want_list,
+               f"{L} lists {spas}, expected {want_list} (identifier, name and address intact, each spa once)", sd.loc)
+        ctx.ob(rule, f"{L}::{key}::socket-closed", closed, f"{L}.start_discovery returns with its socket still open", sd.loc)
+    ctx.floor(rule, "blocking discovery runs interpreted", n, 8)
+
+
 def check(ctx):
     repo = Repo()
     ctx.rule("R1", "de-dup + paired appends: membership of the identifier in the seen-list is tested with an early return dominating both appends; identifier and descriptor are appended on exactly the same paths, once")
@@ -243,4 +349,6 @@ def check(ctx):
     ctx.rule("R7", "each reply is reported individually: the consume loop pairs every handled datagram with its own handled-callback (the locator reads the handler's single-slot identifier/name there)")
     from .c05 import consume_pairing
     consume_pairing(ctx, repo, "R7")
+    ctx.rule("R8", "the blocking locator's discovery run, interpreted end to end on a model socket and clock with scripted replies: it returns as soon as the requested spa (by text or bytes identifier, or by address) has answered and not when another spa answers first, otherwise after the initial wait once any spa has answered, at the latest at the discovery timeout; each spa is listed once with identifier, name and address intact; the socket is closed on return")
+    blocking_discovery_model(ctx, repo, "R8")
     ctx.assume("asyncio runs one callback at a time (cooperative scheduling)")
